@@ -16,6 +16,8 @@ var checks = map[string]func(*vk.Run){
 	"C13": ec.RunC13,
 	"C10": ka.RunC10,
 	"C11": ka.RunC11,
+	"C12": ka.RunC12,
+	"C03": ka.RunC03,
 }
 
 func main() {
